@@ -636,6 +636,46 @@ func pathLeaves(v ssa.Value) []ssa.Value {
 					return
 				}
 			}
+			// an element of the result of filepath.Glob(pattern): a name inside the pattern's directory
+			// that matches its last element — its leaves are the pattern's
+			if ia, ok := y.X.(*ssa.IndexAddr); ok {
+				// an element of a slice literal of constants (`for _, pattern := range []string{"a", "b"}`)
+				base := ia.X
+				if sl, isSl := base.(*ssa.Slice); isSl {
+					base = sl.X
+				}
+				if al, isAl := base.(*ssa.Alloc); isAl && al.Referrers() != nil {
+					var consts []ssa.Value
+					all := true
+					for _, u := range *al.Referrers() {
+						ea, isEA := u.(*ssa.IndexAddr)
+						if !isEA || ea.Referrers() == nil {
+							continue
+						}
+						for _, uu := range *ea.Referrers() {
+							if st, isSt := uu.(*ssa.Store); isSt && st.Addr == ssa.Value(ea) {
+								if _, isC := st.Val.(*ssa.Const); isC {
+									consts = append(consts, st.Val)
+								} else {
+									all = false
+								}
+							}
+						}
+					}
+					if all && len(consts) > 0 {
+						for _, c := range consts {
+							walk(c, depth+1, fr)
+						}
+						return
+					}
+				}
+				for _, oc := range originCalls(ia.X) {
+					if cal := core.Callee(oc); cal != nil && core.IsFunc(cal, "path/filepath", "Glob") && len(oc.Call.Args) == 1 {
+						walk(oc.Call.Args[0], depth+1, fr)
+						return
+					}
+				}
+			}
 			out = append(out, x)
 		default:
 			out = append(out, x)
@@ -1055,6 +1095,11 @@ func c07R3(p *core.Prog, r *core.Report, rule string) {
 				if s == "blobs" {
 					hasBlobs = true
 				}
+				// the other thing the sweep may remove: a temp file of the layout's own top-level files
+				// (`index.json.*.tmp`), named by a constant pattern without a directory part
+				if strings.HasSuffix(s, ".tmp") && !strings.ContainsAny(s, "/\\") {
+					hasBlobs = true
+				}
 				continue
 			}
 			if c, ok := l.(*ssa.Call); ok {
@@ -1069,7 +1114,7 @@ func c07R3(p *core.Prog, r *core.Report, rule string) {
 			bad = append(bad, l.String())
 		}
 		r.Check(hasBlobs && okLeaves, rule, p.FuncName(closeFn), "sweep path", p.Pos(rm.Pos()),
-			"GC removes only <layout>/blobs/<dir entry>/<dir entry>"+map[bool]string{true: "", false: "; unexpected leaves: " + strings.Join(bad, ", ")}[okLeaves])
+			"GC removes only <layout>/blobs/<dir entry>/<dir entry> and <layout>/<constant>.tmp"+map[bool]string{true: "", false: "; unexpected leaves: " + strings.Join(bad, ", ")}[okLeaves])
 	}
 }
 
